@@ -146,6 +146,9 @@ func (cache *H264Cache) getPalyloadType(payload []byte) (sps, pps, islice bool) 
 		off := 1
 		// 循环读取被封装的NAL
 		for {
+			if off+2 >= len(payload) { // 被截断的聚合包
+				return
+			}
 			// nal长度
 			nalSize := ((uint16(payload[off])) << 8) | uint16(payload[off+1])
 			if nalSize < 1 {
